@@ -282,6 +282,8 @@ func (ex *Exec) applyContract(fr *Frame, st *State, fc *FuncContract, names []st
 		lbl := calleeName
 		if cl.Label != "" {
 			lbl += "." + cl.Label
+		} else {
+			lbl += fmt.Sprintf(".L%d", cl.Line)
 		}
 		ex.oblige("pre", lbl, st, g, p, nil)
 	}
